@@ -471,8 +471,8 @@ fn random_case(rng: &mut Rng) -> Case {
     }
     let bufs = [1usize, 2, 3, 7, 64, 1024, n.saturating_sub(1).max(1), n.max(1), n + 1];
     let mut buf = *rng.pick(&bufs);
-    if n / buf > 300 {
-        buf = (n / 100).max(1); // bound the number of worker-thread hand-offs per case
+    if n / buf > 48 {
+        buf = (n / 24).max(1); // bound the number of worker-thread hand-offs per case
     }
     let alg = *rng.pick(&["sha256", "sha256", "sha384", "sha512"]);
     Case { n, data_seed: rng.next_u64() % 1_000_000, ranges, excl, alg, buf }
@@ -505,7 +505,7 @@ fn main() {
 
     let mut cases = grid_cases(run.quick());
     let grid_n = cases.len();
-    let n_random = run.tier.pick(100_000, 3_000_000);
+    let n_random = run.tier.pick(40_000, 2_000_000);
     let mut rng = Rng::new(run.seed, "c13");
     for _ in 0..n_random {
         cases.push(random_case(&mut rng));
